@@ -550,7 +550,8 @@ theorem good_cells_inRange {A : BMOC} (g : Good A) : ∀ c ∈ A.cells, c.depth 
 
 theorem not_good (A : BMOC) (g : Good A) : Good (BMOC.not A) := by
   have hr : ∀ c ∈ cellsOf A.dmax A.entries, InR c := fun c hc => (good_cells_inRange g c hc).2
-  obtain ⟨_, w1, r1⟩ := notCells_spec A.dmax g.1 _ g.2.2 hr
+  have hcells : A.cells = cellsOf A.dmax A.entries := rfl
+  obtain ⟨_, w1, r1⟩ := notCells_spec A.dmax g.1 (cellsOf A.dmax A.entries) g.2.2 hr
   have hent : (BMOC.not A).entries = (notCells (cellsOf A.dmax A.entries)).map (encode A.dmax) := rfl
   have hco := cellsOf_map_encode A.dmax g.1 _ w1.depth_le r1
   refine ⟨g.1, ?_, ?_⟩
@@ -564,8 +565,8 @@ theorem not_good (A : BMOC) (g : Good A) : Good (BMOC.not A) := by
 
 theorem and_good (A B : BMOC) (gA : Good A) (gB : Good B) : Good (BMOC.and A B) := by
   have hD : max A.dmax B.dmax ≤ 29 := Nat.max_le.2 ⟨gA.1, gB.1⟩
-  have wA : WF (max A.dmax B.dmax) A.cells := wf_mono_depth (Nat.le_max_left _ _) gA.2.2
-  have wB : WF (max A.dmax B.dmax) B.cells := wf_mono_depth (Nat.le_max_right _ _) gB.2.2
+  have wA : WF (max A.dmax B.dmax) A.cells := XorP.wf_mono_depth (Nat.le_max_left _ _) gA.2.2
+  have wB : WF (max A.dmax B.dmax) B.cells := XorP.wf_mono_depth (Nat.le_max_right _ _) gB.2.2
   obtain ⟨w, ins⟩ := and_wf_inside (max A.dmax B.dmax) A.cells B.cells wA wB
   have hr : ∀ c ∈ andCells A.cells B.cells, InRange c := by
     intro c hc
@@ -639,4 +640,45 @@ theorem reach_or_xor_defined {α : Type} [Num α] (cfg : Cfg) (a b : BMOC) (ha :
   obtain ⟨R', h1', _⟩ := xor_good a b (reach_good cfg a ha) (reach_good cfg b hb)
   exact ⟨⟨R, h1⟩, ⟨R', h1'⟩⟩
 
+/-! ## non-vacuity
+
+The hypotheses `… = some b` are satisfiable in every branch.  At `Float` (`#eval`, bit-identical to the Rust code):
+`coneCoverageApprox {} 3 0.3 0.2 r` returns the 12 base cells for `r = 4.0` (all-sky), 50+ entries for `r = 1.5`
+(no starting depth: base-cell start) and `r = 0.5` (starting depth 0 < 3: neighbours + recursion), 9 entries for
+`r = 0.05` (starting depth 3 = depth: small-cone branch) and `[1146]` for `r = 0.0001` (starting depth 12: small-cone
+branch with ancestors); `coneCoverageApproxCustom {} 3 2 0.3 0.2 0.05` (descent at depth 5 from starting depth 3, then
+`to_lower_depth`) returns `[1146, 1150, 1234, 1238]`; `ellipticalConeCoverageCustom {} 3 2 0.3 0.2 0.1 0.05 0.3` returns
+6 entries, and `[1146]` with `deltaDepth = 0`, `a = 0.001`, `b = 0.0005` (starting depth 9: small branch);
+`polygonCoverage {} 3 [(0.1,0.1),(0.4,0.1),(0.3,0.4)]` returns 7 entries in both modes.
+The kernel can check the all-sky one; for the generic loops a classifier without floats is used. -/
+
+example : (coneCoverageApprox {} 3 (0.3 : Float) 0.2 4.0).map (·.entries) =
+    some [129, 385, 641, 897, 1153, 1409, 1665, 1921, 2177, 2433, 2689, 2945] := by decide +kernel
+
+/-- a classifier that answers `full`, `descend`, `skip` according to the cell number -/
+def κex (_d h _l : Nat) : Option Verdict :=
+  if h % 3 = 0 then some .full else if h % 3 = 1 then some (.descend true) else some .skip
+
+/-- `startFold_wf` applies: depth-1 start cells `[4, 5, 6, 7, 10, 11, 26, 27]` around cell 5, target depth 3:
+    23 cells of depths 1, 2, 3 -/
+example : ((sortNat (((Topo.neighbours {} 1 5 true).getD []).map (·.2))).foldlM
+    (fun acc r => (coverRec 3 κex 5 1 r 0).map (acc ++ ·)) []).map
+      (fun l => (l.length, l.take 4 |>.map fun c => (c.depth, c.hash))) =
+    some (23, [(3, 64), (3, 66), (3, 67), (2, 18)]) := by decide +kernel
+
+/-- `smallBranch_wf` applies: three kept neighbours of cell 200 at depth 3 have the same ancestor at depth 1; `dedup`
+    after `sort` leaves one cell -/
+example : (((Topo.neighbours {} 3 200 true).getD []).foldlM
+    (fun acc (e : MW × Nat) => if e.2 % 2 = 0 then some (acc ++ [e.2 >>> ((3 - 1) <<< 1)]) else some acc)
+      ([] : List Nat)).map (fun l => (l, dedupAdj (sortNat l))) = some ([12, 12, 12], [12]) := by decide +kernel
+
 end Hpx.CoverAll
+
+#print axioms Hpx.CoverAll.cone_coverage_wf
+#print axioms Hpx.CoverAll.cone_coverage_custom_wf
+#print axioms Hpx.CoverAll.elliptical_cone_coverage_wf
+#print axioms Hpx.CoverAll.polygon_coverage_wf
+#print axioms Hpx.CoverAll.polygon_coverage_approx_wf
+#print axioms Hpx.CoverAll.coverage_good
+#print axioms Hpx.CoverAll.reach_good
+#print axioms Hpx.CoverAll.reach_or_xor_defined
